@@ -229,6 +229,102 @@ fn fmt_list(v: &[i64]) -> String {
     format!("[{}]", v.iter().map(|x| el(*x)).collect::<Vec<_>>().join(", "))
 }
 
+type Env = BTreeMap<String, Vec<i64>>;
+type NEnv = BTreeMap<String, Vec<Vec<i64>>>;
+
+fn fmt_nested(v: &[Vec<i64>]) -> String {
+    format!("[{}]", v.iter().map(|x| fmt_list(x)).collect::<Vec<_>>().join(", "))
+}
+
+enum NestOut {
+    Flat(Vec<i64>),
+    Nested(Vec<Vec<i64>>),
+}
+
+/// Model and numbat text of a nested-list step. None: refers to something that does not exist.
+/// Some((text, Err(()))): the model says the expression fails at run time.
+fn nested_step(st: &Value, env: &Env, nenv: &NEnv) -> Option<(String, Result<NestOut, ()>)> {
+    let name = st["name"].as_str()?;
+    match st["op"].as_str()? {
+        "nest" => {
+            let parts: Vec<&str> = st["parts"].as_array()?.iter().filter_map(|x| x.as_str()).collect();
+            let mut v = vec![];
+            for p in &parts {
+                v.push(env.get(*p)?.clone());
+            }
+            if parts.is_empty() {
+                return None;
+            }
+            Some((format!("let {name} = [{}]", parts.join(", ")), Ok(NestOut::Nested(v))))
+        }
+        "unnest" => {
+            let from = st["from"].as_str()?;
+            let outer = nenv.get(from)?;
+            let how = st["how"].as_str()?;
+            let with = st["with"].as_str().unwrap_or("");
+            match how {
+                "tail_outer" => {
+                    let text = format!("let {name} = tail({from})");
+                    if outer.is_empty() {
+                        return Some((text, Err(())));
+                    }
+                    Some((text, Ok(NestOut::Nested(outer[1..].to_vec()))))
+                }
+                "cons_outer" => {
+                    let w = env.get(with)?;
+                    let mut v = vec![w.clone()];
+                    v.extend(outer.iter().cloned());
+                    Some((format!("let {name} = cons({with}, {from})"), Ok(NestOut::Nested(v))))
+                }
+                _ => {
+                    let (inner_text, inner): (String, Option<Vec<i64>>) = match how {
+                        "head" => (format!("head({from})"), outer.first().cloned()),
+                        "elem" => {
+                            let i = st["index"].as_i64().unwrap_or(0);
+                            (format!("element_at({i}, {from})"), outer.get(i as usize).cloned())
+                        }
+                        _ => {
+                            let w = env.get(with)?;
+                            (
+                                format!("concat(head({from}), {with})"),
+                                outer.first().map(|x| {
+                                    let mut y = x.clone();
+                                    y.extend(w.iter().copied());
+                                    y
+                                }),
+                            )
+                        }
+                    };
+                    let v = st["v"].as_i64().unwrap_or(0);
+                    let (text, out) = match st["then"].as_str().unwrap_or("id") {
+                        "cons" => (
+                            format!("cons({}, {inner_text})", el(v)),
+                            inner.map(|mut x| {
+                                x.insert(0, v);
+                                x
+                            }),
+                        ),
+                        "cons_end" => (
+                            format!("cons_end({}, {inner_text})", el(v)),
+                            inner.map(|mut x| {
+                                x.push(v);
+                                x
+                            }),
+                        ),
+                        "tail" => (
+                            format!("tail({inner_text})"),
+                            inner.and_then(|x| if x.is_empty() { None } else { Some(x[1..].to_vec()) }),
+                        ),
+                        _ => (inner_text, inner),
+                    };
+                    Some((format!("let {name} = {text}"), out.map(NestOut::Flat).ok_or(())))
+                }
+            }
+        }
+        _ => None,
+    }
+}
+
 fn gen_list_expr(rng: &mut Rng, vars: &[String], depth: u32, next_val: &mut i64) -> Value {
     if units_mode() {
         return gen_list_expr_units(rng, vars, depth, next_val);
@@ -289,7 +385,7 @@ thread_local! {
 /// Unit mode: structural operations only (elements are lengths in two units), and 40 % of the
 /// new elements are the twin (`3 m` vs `300 cm`) of an element that already exists somewhere.
 fn gen_list_expr_units(rng: &mut Rng, vars: &[String], depth: u32, next_val: &mut i64) -> Value {
-    let mut new_elem = |rng: &mut Rng, nv: &mut i64| -> i64 {
+    let new_elem = |rng: &mut Rng, nv: &mut i64| -> i64 {
         let pool: Vec<i64> = POOL.with(|p| p.borrow().clone());
         let v = if !pool.is_empty() && rng.chance(0.4) {
             twin(*rng.pick(&pool))
@@ -341,6 +437,8 @@ pub fn generate(rng: &mut Rng) -> Value {
     let mut sessions: Vec<Option<BTreeMap<String, Vec<i64>>>> = vec![Some(BTreeMap::new())];
     let mut next_val = 10i64;
     let mut next_name = 0usize;
+    let mut nested_names: Vec<Vec<String>> = vec![vec![]];
+    let mut nested_envs: Vec<NEnv> = vec![NEnv::new()];
     for _ in 0..n_steps {
         let live: Vec<usize> = (0..sessions.len())
             .filter(|i| sessions[*i].is_some())
@@ -351,9 +449,57 @@ pub fn generate(rng: &mut Rng) -> Value {
             steps.push(json!({"op": "clone", "from": s}));
             let names = sessions[s].clone();
             sessions.push(names);
+            let nn = nested_names[s].clone();
+            nested_names.push(nn);
+            let ne = nested_envs[s].clone();
+            nested_envs.push(ne);
         } else if roll < 18 && live.len() > 1 {
             steps.push(json!({"op": "drop", "session": s}));
             sessions[s] = None;
+        } else if (60..75).contains(&roll) && !sessions[s].as_ref().unwrap().is_empty() {
+            // nested lists: lists whose elements are (handles to) other lists' storage
+            let vars: Vec<String> = sessions[s].as_ref().unwrap().keys().cloned().collect();
+            let nested: Vec<String> = nested_names[s].clone();
+            if nested.is_empty() || rng.chance(0.4) {
+                let n = rng.range(1, 3) as usize;
+                let parts: Vec<String> = (0..n).map(|_| rng.pick(&vars).clone()).collect();
+                next_name += 1;
+                let name = format!("vn{next_name}");
+                let st = json!({"op": "nest", "session": s, "name": name, "parts": parts});
+                if let Some((_, Ok(NestOut::Nested(v)))) = nested_step(&st, sessions[s].as_ref().unwrap(), &nested_envs[s]) {
+                    nested_envs[s].insert(name.clone(), v);
+                    nested_names[s].push(name);
+                }
+                steps.push(st);
+            } else {
+                let from = rng.pick(&nested).clone();
+                let how = *rng.pick(&["head", "elem", "tail_outer", "cons_outer", "concat_inner"]);
+                next_val += 1;
+                let name = if how == "tail_outer" || how == "cons_outer" {
+                    next_name += 1;
+                    format!("vn{next_name}")
+                } else if !vars.is_empty() && rng.chance(0.3) {
+                    rng.pick(&vars).clone()
+                } else {
+                    next_name += 1;
+                    format!("vl{next_name}")
+                };
+                let then = *rng.pick(&["id", "cons", "cons_end", "tail"]);
+                let v = if units { if rng.chance(0.5) { next_val } else { -(next_val * 100) } } else { next_val };
+                let st = json!({"op": "unnest", "session": s, "name": name, "from": from, "how": how,
+                    "index": rng.range(0, 2), "then": then, "v": v, "with": rng.pick(&vars)});
+                match nested_step(&st, sessions[s].as_ref().unwrap(), &nested_envs[s]) {
+                    Some((_, Ok(NestOut::Flat(x)))) => {
+                        sessions[s].as_mut().unwrap().insert(name, x);
+                    }
+                    Some((_, Ok(NestOut::Nested(x)))) => {
+                        nested_envs[s].insert(name.clone(), x);
+                        nested_names[s].push(name);
+                    }
+                    _ => {}
+                }
+                steps.push(st);
+            }
         } else if roll < 75 {
             let vars: Vec<String> = sessions[s].as_ref().unwrap().keys().cloned().collect();
             let depth = rng.range(1, 4) as u32;
@@ -417,6 +563,7 @@ pub fn exec(w: &mut InterpWorker, trace: &Value, res: &mut ExecResult) {
     struct S {
         sess: Sess,
         env: BTreeMap<String, Vec<i64>>,
+        nenv: NEnv,
     }
     let units = trace["units"].as_bool().unwrap_or(false);
     UNITS.with(|u| u.set(units));
@@ -426,6 +573,7 @@ pub fn exec(w: &mut InterpWorker, trace: &Value, res: &mut ExecResult) {
     let mut sessions: Vec<Option<S>> = vec![Some(S {
         sess: base,
         env: BTreeMap::new(),
+        nenv: NEnv::new(),
     })];
     let mut fp = Fnv::default();
     let mut nontrivial = false;
@@ -445,6 +593,7 @@ pub fn exec(w: &mut InterpWorker, trace: &Value, res: &mut ExecResult) {
                 let c = S {
                     sess: s.sess.clone(),
                     env: s.env.clone(),
+                    nenv: s.nenv.clone(),
                 };
                 if !c.env.is_empty() {
                     cloned_once = true;
@@ -455,6 +604,57 @@ pub fn exec(w: &mut InterpWorker, trace: &Value, res: &mut ExecResult) {
             "drop" => {
                 sessions[sidx] = None;
                 res.bump("interp.session_drop");
+            }
+            "nest" | "unnest" => {
+                let s = sessions[sidx].as_mut().unwrap();
+                let Some((text, want)) = nested_step(st, &s.env, &s.nenv) else {
+                    continue;
+                };
+                let name = st["name"].as_str().unwrap_or("vnx").to_string();
+                if cloned_once {
+                    nontrivial = true;
+                }
+                res.bump(&format!("interp.{op}"));
+                let full = format!("{text}\nprint({name})");
+                let out = s.sess.submit(&full);
+                fp.write_str(&full);
+                fp.write_str(&out.full_text());
+                match (&want, &out.kind) {
+                    (_, crate::sess::OutKind::Panic(p)) => {
+                        res.sut_panics.push(p.clone());
+                        res.fail("list-panic", format!("step {k}: `{full}` panicked: {p}"));
+                    }
+                    (Ok(w_), crate::sess::OutKind::Ok { .. }) => {
+                        let wtext = match w_ {
+                            NestOut::Flat(v) => fmt_list(v),
+                            NestOut::Nested(v) => fmt_nested(v),
+                        };
+                        let got = out.prints.last().cloned().unwrap_or_default();
+                        if got != wtext {
+                            res.fail("list-model", format!("step {k}: `{full}` printed `{got}`, model says `{wtext}`"));
+                        }
+                        match want {
+                            Ok(NestOut::Flat(v)) => {
+                                s.nenv.remove(&name);
+                                s.env.insert(name, v);
+                            }
+                            Ok(NestOut::Nested(v)) => {
+                                s.env.remove(&name);
+                                s.nenv.insert(name, v);
+                            }
+                            Err(()) => {}
+                        }
+                    }
+                    (Err(()), crate::sess::OutKind::Err { stage, .. }) if *stage == "runtime" => {
+                        res.bump("interp.expected_runtime_error");
+                    }
+                    (Ok(_), crate::sess::OutKind::Err { stage, msg }) => {
+                        res.fail("list-model", format!("step {k}: `{full}` failed ({stage}: {msg}), model says it succeeds"));
+                    }
+                    (Err(()), _) => {
+                        res.fail("list-model", format!("step {k}: `{full}` gave {}, model says run-time error", out.full_text()));
+                    }
+                }
             }
             "let" | "observe" => {
                 let s = sessions[sidx].as_mut().unwrap();
@@ -543,6 +743,7 @@ pub fn exec(w: &mut InterpWorker, trace: &Value, res: &mut ExecResult) {
                         if op == "let"
                             && let Ok(v) = model
                         {
+                            s.nenv.remove(st["name"].as_str().unwrap_or("vlx"));
                             s.env
                                 .insert(st["name"].as_str().unwrap_or("vlx").to_string(), v);
                         }
@@ -577,10 +778,10 @@ pub fn exec(w: &mut InterpWorker, trace: &Value, res: &mut ExecResult) {
         // cross-invariant: every global of every live session still equals its model
         for (si, s) in sessions.iter().enumerate() {
             let Some(s) = s else { continue };
-            if s.env.is_empty() {
+            if s.env.is_empty() && s.nenv.is_empty() {
                 continue;
             }
-            let names: Vec<&String> = s.env.keys().collect();
+            let names: Vec<&String> = s.env.keys().chain(s.nenv.keys()).collect();
             let probe = names
                 .iter()
                 .map(|n| format!("print({n})"))
@@ -589,7 +790,12 @@ pub fn exec(w: &mut InterpWorker, trace: &Value, res: &mut ExecResult) {
             let mut c = s.sess.clone();
             let out = c.submit(&probe);
             res.bump("interp.cross_checks");
-            let want: Vec<String> = names.iter().map(|n| fmt_list(&s.env[*n])).collect();
+            let want: Vec<String> = s
+                .env
+                .values()
+                .map(|v| fmt_list(v))
+                .chain(s.nenv.values().map(|v| fmt_nested(v)))
+                .collect();
             if !out.is_ok() || out.prints != want {
                 res.fail(
                     "list-model",
